@@ -551,6 +551,9 @@ func (e *Engine) splitInt2(what string, v Value, si scalarInfo, lo, hi int64, no
 	if max <= 0 {
 		max = 64
 	}
+	if what == "make-len" {
+		max *= 2 // two free decimal digits reach a length directly
+	}
 	e.sv.Push()
 	e.sv.Assert(inRange)
 	n := 0
